@@ -87,8 +87,13 @@ func pushScenario(t *rapid.T, restartFocus bool) sim.Scenario {
 			st = sim.Step{Op: "push", Push: kind, K: pushes, D: pick(t, "deadline", []int{0, 0, 1000, 3000, -1, -2})}
 			if rapid.IntRange(0, 14).Draw(t, "badparams") == 0 {
 				st.Out = "badparams" // refused before anything is sent
-			} else if kind == "callback" {
-				callbacks = append(callbacks, pushes)
+			} else {
+				if rapid.IntRange(0, 5).Draw(t, "rawparams") == 0 {
+					st.Out = "rawparams" // pre-encoded, with line feeds: a push like any other
+				}
+				if kind == "callback" {
+					callbacks = append(callbacks, pushes)
+				}
 			}
 		case roll < 34:
 			// a handler (call or notification) that itself pushes, then parks
